@@ -53,6 +53,8 @@ class VarReplOp(Op):
             tree = treegen.gen_tree(rng, unique=True, max_depth=rng.choice([2, 3, 4, 5]), max_kids=3)
             if rng.random() < 0.5:
                 tree = prefixy(rng, tree)
+            if rng.random() < 0.15:
+                tree = crafted_alignment(rng)
             es = [e for e in elems(tree) if e[2][1] != "meta"]
             names = [e[0] for e in es]
             if len(es) < 2 or len(set(names)) != len(names):
@@ -75,6 +77,23 @@ class VarReplOp(Op):
                               "expected": got, "desc": {"tree": tree, "context": c[0], "target": t[0], "last_saved": ls, "use_current": uc, "reference_parent": rp},
                               "class": ("last-saved" if ls else ("relative" if ".." in got else "absolute")) + ("/section-target" if t[1] != "Q" else "")})
         return cases[:n]
+
+
+def crafted_alignment(rng):
+    """repeats o > a > b holding the referrer, and beside a, in o, a section whose name ends with a's name exactly where the text of the
+    target's xpath would be cut by len(xpath of b): the layout of finding F30 (fixed), with random names and optional extra depth"""
+    a = rng.choice(["a", "ab", "s1", "rep"])
+    b = rng.choice(["b", "u", "in", "xyz"])
+    g = "z" * (len(a) + len(b) + 2) + a
+    tgt = rng.choice(["q", "t2", b + "x", "zz"])
+    inner = [("Q", "c_ref", True, False), ("Q", "c_vis", True, True)]
+    if rng.random() < 0.4:
+        inner = [("G", "gi", False, False, inner)]
+    target_sec = ("G", g, False, False, [("Q", tgt, True, True)]) if rng.random() < 0.7 else ("R", g, False, [("Q", tgt, True, True)])
+    kids = [target_sec, ("R", a, False, [("R", b, False, inner)])]
+    if rng.random() < 0.5:
+        kids.reverse()
+    return ("G", "data", False, False, [("Q", "top", True, True), ("R", "o", False, kids)])
 
 
 def prefixy(rng, tree):
@@ -110,6 +129,8 @@ class CleanOp(Op):
             tree = treegen.gen_tree(rng, unique=True, max_depth=rng.choice([2, 3, 4, 5]), max_kids=3)
             if rng.random() < 0.5:
                 tree = prefixy(rng, tree)
+            if rng.random() < 0.15:
+                tree = crafted_alignment(rng)
             es = [e for e in elems(tree) if e[2][1] != "meta"]
             names = [e[0] for e in es]
             qs = [e for e in es if e[1] == "Q"]
@@ -144,6 +165,8 @@ def layouts(rng, n):
         t = treegen.gen_tree(rng, unique=True, max_depth=rng.choice([2, 3, 4, 5, 6]), max_kids=rng.choice([2, 3]))
         if rng.random() < 0.5:
             t = prefixy(rng, t)
+        if rng.random() < 0.1:
+            t = crafted_alignment(rng)
         es = [e for e in elems(t) if e[2][1] != "meta"]
         if len({e[0] for e in es}) == len(es) and sum(1 for e in es if e[1] == "Q") >= 2:
             out.append(t)
